@@ -336,6 +336,8 @@ struct HState {
     active: Option<usize>,
     streams: &'static [u8],
     propagate: bool,
+    /// A read was polled once and dropped while Pending (the request may still hold the output lock).
+    abandoned: bool,
 }
 
 impl HState {
@@ -650,12 +652,29 @@ async fn handler_body(req: &mut Req<'_>, world: Shared, mode: HandlerMode) -> io
         w.handler_log.len() - 1
     };
     let propagate = { let mut w = lock(&world); let p = w.cx.ch.chance(3, 4); p || w.force_propagate };
-    let mut st = HState { final_reached: false, world: world.clone(), idx, mode, active: if streams.is_empty() { None } else { Some(0) }, streams, propagate };
+    let mut st = HState { final_reached: false, world: world.clone(), idx, mode, active: if streams.is_empty() { None } else { Some(0) }, streams, propagate, abandoned: false };
     vcheck_h(&st, req.active_stream().map(u8::from) == streams.first().copied(), "c18_initial", "initial active stream wrong");
     st.sample_writeable(req);
     let r = match mode {
         HandlerMode::Writers => handler_writers(req, &mut st).await,
         _ => handler_seq(req, &mut st).await,
+    };
+    // history: a handler that reacts to the abort signal it got from a read with a last line on stderr before it
+    // passes the signal on; if that write fails in the transport, the write's error is what it returns
+    let r = match r {
+        Err(e) if e.kind() == io::ErrorKind::ConnectionAborted && mode != HandlerMode::Writers && !st.abandoned && req.is_writeable()
+            && st.with(|w, inv| w.write_failed_at.is_none() && inv.errors.last().map_or(false, |(k, op, _)| k == "ConnectionAborted" && op != "write"))
+            && st.chance(1, 3) =>
+        {
+            st.probe("write_after_abort_signal");
+            st.ev("h_write_after_abort", 0, 0);
+            let mut w = req.output_stream(RecordType::Stderr);
+            let data = gen_write_data(&st, u8::from(RecordType::Stderr), 99);
+            let wr = h_write(&mut w, &st.world, st.idx, data, false).await;
+            drop(w);
+            match wr { Ok(()) => Err(e), Err(e2) => Err(e2) }
+        }
+        other => other,
     };
     let r = match r {
         Ok(s) => Ok(s),
@@ -788,7 +807,7 @@ async fn handler_seq(req: &mut Req<'_>, st: &mut HState) -> io::Result<ExitStatu
                         st.with(|w, inv| inv.errors.push((k, "read".into(), w.read_pos)));
                         return Err(e);
                     }
-                    std::task::Poll::Pending => { st.probe("read_abandoned_while_pending"); abandoned = true; }
+                    std::task::Poll::Pending => { st.probe("read_abandoned_while_pending"); abandoned = true; st.abandoned = true; }
                 }
                 st.sample_writeable(req);
             }
@@ -977,7 +996,7 @@ async fn handler_writers(req: &mut Req<'_>, st: &mut HState) -> io::Result<ExitS
     }
     if with_reader {
         futs.push(Box::pin(async move {
-            let mut stl = HState { final_reached: false, world: rworld, idx, mode: HandlerMode::Writers, active, streams: role_streams(u16::from(req_ref.role())), propagate: true };
+            let mut stl = HState { final_reached: false, world: rworld, idx, mode: HandlerMode::Writers, active, streams: role_streams(u16::from(req_ref.role())), propagate: true, abandoned: false };
             let mut to_spawn = late_n;
             let slot_r = slot_reader;
             let mut hook = |rq: &mut Req<'_>, sth: &mut HState| {
@@ -1355,6 +1374,9 @@ pub fn check_history_mode(out: &ConnOutcome, plan: &Plan, allow_abort_forms: boo
             // optional Stdout{} Stderr{}
             if gi + 1 < others.len() && others[gi].rtype == STDOUT && others[gi].content.is_empty() && others[gi + 1].rtype == STDERR && others[gi + 1].content.is_empty() {
                 gi += 2;
+            } else if faulted && gi + 1 == others.len() && others[gi].rtype == STDOUT && others[gi].content.is_empty() {
+                // the fault cut the log between the two optional stream ends
+                return Ok(());
             }
             k += 1;
             continue;
@@ -1794,7 +1816,9 @@ pub fn c12(cx: &mut Ctx) -> VResult {
     cx.declare(F_TRANSPORT, P_BASE);
     cx.declare(F_INJECT, &[]);
     cx.declare(&[], C12_PROBES);
-    let o = PlanOpts { max_reqs: 2, noise: cx.ch.pick(3), closed_loop: false, abort: false, small_buf_bias: cx.ch.chance(1, 2), force_keep: false, either_noise: false, pipelined: false, burst: false };
+    // history: a third of the scripts contain a request the client aborts (during Params or in the stream phase), so
+    // faults also land after an abort was signalled to the handler
+    let o = PlanOpts { max_reqs: 2, noise: cx.ch.pick(3), closed_loop: false, abort: cx.ch.chance(1, 3), small_buf_bias: cx.ch.chance(1, 2), force_keep: false, either_noise: false, pipelined: false, burst: false };
     let plan = gen_plan(cx, &o);
     note_plan(cx, &plan);
     if plan.wire.len() > 1500 { 
@@ -1803,15 +1827,19 @@ pub fn c12(cx: &mut Ctx) -> VResult {
     let knobs = gen_knobs(cx, false, plan.wire.len());
     let rkind = match cx.ch.pick(4) { 0 => io::ErrorKind::ConnectionReset, 1 => io::ErrorKind::Interrupted, 2 => io::ErrorKind::TimedOut, _ => io::ErrorKind::Other };
     // fault-free reference run, recording the choice list of the run itself
-    let start = cx.ch.log.len();
     let hmode = match cx.ch.weighted(&[5, 2, 1]) { 0 => HandlerMode::Seq, 1 => HandlerMode::Readers, _ => HandlerMode::Writers };
+    // (an abort signal ends a handler at once; with concurrent writer sub-tasks it would abandon a record half-way,
+    // which no library can repair - scripts with aborts use the sequential handlers)
+    let hmode = if hmode == HandlerMode::Writers && plan.reqs.iter().any(|r| r.has_abort) { HandlerMode::Seq } else { hmode };
+    let start = cx.ch.log.len();
     let inner = take_cx(cx);
     let copts = |rf, wf| ConnOpts { mode: hmode, rfault: rf, wfault: wf, shutdown: None, strict_no_spurious: true, shutdown_in_read: None };
     let mut out = run_conn_with(inner, &plan, knobs, &copts(RFault::None, WFault::None), |w| w.force_propagate = true);
     give_back(cx, &mut out);
     handler_violations(&out)?;
+    let aborts = plan.reqs.iter().any(|r| r.has_abort);
     check_termination(&out, &plan, "c12_baseline")?;
-    check_history(&out, &plan, false, "c12_baseline")?;
+    check_history(&out, &plan, aborts, "c12_baseline")?;
     let script: Vec<u32> = cx.ch.log[start..].to_vec();
     let n_in = plan.wire.len();
     let n_reads = out.world.read_calls;
@@ -1883,7 +1911,7 @@ pub fn c12(cx: &mut Ctx) -> VResult {
             vcheck!(w.writes_after_failure == 0, "c12_write_after_failure", "fault {label}: {} write calls after the failed write", w.writes_after_failure);
         }
         // 5. the log is a prefix of a well-formed record sequence consistent with the handler log
-        let r = check_history_mode(&fo, &plan, false, "c12", true, limit, true).and_then(|()| check_replies(&fo, &plan, w.read_pos, false, "c12"));
+        let r = check_history_mode(&fo, &plan, aborts, "c12", true, limit, true).and_then(|()| check_replies(&fo, &plan, w.read_pos, false, "c12"));
         if let Err(v) = r {
             return Err(Violation::new(&v.oracle, site, format!("fault {label}: {}", v.detail)));
         }
@@ -1891,16 +1919,20 @@ pub fn c12(cx: &mut Ctx) -> VResult {
     Ok(())
 }
 
-pub const C14_PROBES: &[&str] = &["client_frozen_at_shutdown", "shutdown_inside_a_transport_read", "reply_cut_by_shutdown", "idle_at_shutdown", "handler_running_at_shutdown", "shutdown_future_ready_after_conn", "conn_stopped_by_shutdown"];
+pub const C14_PROBES: &[&str] = &["pipelining_client", "client_frozen_at_shutdown", "shutdown_inside_a_transport_read", "reply_cut_by_shutdown", "idle_at_shutdown", "handler_running_at_shutdown", "shutdown_future_ready_after_conn", "conn_stopped_by_shutdown"];
 
 /// C14 (connection side): graceful shutdown at an arbitrary scheduling step.
 pub fn c14_conn(cx: &mut Ctx) -> VResult {
     cx.declare(F_TRANSPORT, P_BASE);
     cx.declare(&["spurious_poll", "shutdown_requested"], &["shutdown_during_handler", "shutdown_before_first_read", "shutdown_between_or_preamble"]);
     cx.declare(&[], C14_PROBES);
-    let o = PlanOpts { max_reqs: 3, noise: cx.ch.pick(3), closed_loop: false, abort: false, small_buf_bias: cx.ch.chance(1, 3), force_keep: true, either_noise: true, pipelined: false, burst: false };
+    // history: in a quarter of the runs the client pipelines (requests back to back, several of them in one read), so
+    // the connection that is told to stop has served requests straight from its buffer before
+    let pipelined = cx.ch.chance(1, 4);
+    let o = PlanOpts { max_reqs: 3, noise: cx.ch.pick(3), closed_loop: false, abort: false, small_buf_bias: cx.ch.chance(1, 3), force_keep: true, either_noise: true, pipelined, burst: false };
     let plan = gen_plan(cx, &o);
     note_plan(cx, &plan);
+    if pipelined && plan.reqs.len() >= 2 { cx.probe("pipelining_client"); }
     let knobs = gen_knobs(cx, true, plan.wire.len());
     let after = match cx.ch.weighted(&[2, 3, 3, 2, 1]) { 0 => 0, 1 => cx.ch.range(1, 20), 2 => cx.ch.range(20, 200), 3 => cx.ch.range(200, 2000), _ => cx.ch.range(2000, 20000) } as u64;
     // a third of the runs request shutdown from inside a transport read call - the connection task is in the middle of
@@ -1910,7 +1942,7 @@ pub fn c14_conn(cx: &mut Ctx) -> VResult {
     let cx_freeze = cx.ch.chance(1, 2);
     let inner = take_cx(cx);
     let freeze = cx_freeze;
-    let mut out = run_conn_with(inner, &plan, knobs, &ConnOpts { mode: HandlerMode::Seq, rfault: RFault::None, wfault: WFault::None, shutdown: Some(if in_read.is_some() { u64::MAX / 2 } else { after }), strict_no_spurious: false, shutdown_in_read: in_read }, |w| w.freeze_if_idle = freeze);
+    let mut out = run_conn_with(inner, &plan, knobs, &ConnOpts { mode: HandlerMode::Seq, rfault: RFault::None, wfault: WFault::None, shutdown: Some(if in_read.is_some() { u64::MAX / 2 } else { after }), strict_no_spurious: false, shutdown_in_read: in_read }, |w| { w.freeze_if_idle = freeze; w.read_everything = pipelined; });
     give_back(cx, &mut out);
     handler_violations(&out)?;
     let w = &out.world;
